@@ -45,7 +45,7 @@ pub fn into_tokens(c: char, it: &mut Peekable<Chars>, state: &mut State) -> LexR
         '<' => match it.peek() {
             Some('<') => match (it.next(), it.peek()) {
                 (_, Some('=')) => next_and_create(it, state, Token::BLShiftAssign),
-                _ => next_and_create(it, state, Token::BLShift),
+                _ => create(state, Token::BLShift),
             },
             Some('=') => next_and_create(it, state, Token::Leq),
             _ => create(state, Token::Le),
@@ -53,7 +53,7 @@ pub fn into_tokens(c: char, it: &mut Peekable<Chars>, state: &mut State) -> LexR
         '>' => match it.peek() {
             Some('>') => match (it.next(), it.peek()) {
                 (_, Some('=')) => next_and_create(it, state, Token::BRShiftAssign),
-                _ => next_and_create(it, state, Token::BRShift),
+                _ => create(state, Token::BRShift),
             },
             Some('=') => next_and_create(it, state, Token::Geq),
             _ => create(state, Token::Ge),
